@@ -14,6 +14,7 @@ open SkVerif
 inductive YKind
   | ok        -- pd.Series, sorted integer index
   | dupidx    -- sorted but with a repeated label (`is_monotonic` is non-strict: accepted)
+  | gapped    -- pd.Series, sorted integer index with a gap (irregular spacing): a valid target
   | unsorted | empty
   | frame1 | frame2          -- pd.DataFrame (any DataFrame is "not univariate")
   | array | array2d          -- np.ndarray
@@ -27,7 +28,11 @@ structure YDesc where
   deriving DecidableEq, Repr
 
 /-- what was passed as `X`, relative to a valid `y` -/
-inductive XKind | none | ok | shifted | shorter | unsorted | array
+inductive XKind
+  | none | ok | shifted | shorter | unsorted | array
+  | interior                 -- same length, same first and last label, one inner label differs
+  | first | last             -- same length, only the first / only the last label differs
+  | longer                   -- one more row at the end
   deriving DecidableEq, Repr
 
 /-- an "integer-like" setting: window_length, step_length, sp, initial_window -/
@@ -71,6 +76,7 @@ def checkXAgainst (x : XKind) : R Unit :=
   | .array => rej                    -- TypeError (allow_numpy=False)
   | .unsorted => rej                 -- X's own index is not monotonic
   | .shifted | .shorter => rej       -- indices differ
+  | .interior | .first | .last | .longer => rej    -- `Index.equals` compares every label
 
 /-- `check_y_X(y, X, allow_empty)` -/
 def checkYX (k : YKind) (x : XKind) (allowEmpty : Bool) : R Unit := do
@@ -314,7 +320,7 @@ def gridSearchEntry (y : YDesc) (x : XKind) (cv : CvTok) (sc : ScoreTok) (g : Gr
 inductive RedStrategy | direct | recursive | multioutput | dirrec | unknown
   deriving DecidableEq, Repr
 
-def reduceEntry (y : YDesc) (x : XKind) (fh : FhTok) (st : RedStrategy) (wl : IntLike) (scitypeOk : Bool) : Outcome :=
+def reduceEntry (y : YDesc) (x : XKind) (fh : FhTok) (st : RedStrategy) (wl step : IntLike) (scitypeOk : Bool) : Outcome :=
   finish (do
     if st == .unknown then rej               -- make_reduction: _check_strategy
     if !scitypeOk then rej
@@ -323,6 +329,7 @@ def reduceEntry (y : YDesc) (x : XKind) (fh : FhTok) (st : RedStrategy) (wl : In
     let f ← match fh with
       | .none => if st == .recursive then pure none else rej
       | t => do let f ← checkFh t false; pure (some f)
+    let _ ← checkPosInt step                  -- _Reducer.fit: check_step_length (None passes through)
     let w ← checkPosInt wl
     match w with
     | none => rej                             -- `None + fh_max`: TypeError
